@@ -115,6 +115,91 @@ pub proof fn lemma_updated(vw: Seq<R>, k: int, mi: int, mv: R, left: int, right:
 	}
 }
 
+// bookkeeping of (max_index, max_value) is valid for the window of the NEXT call (next push has position k): max_value bounds
+// positions [f, k), nothing newer than max_index reaches it, and (once real positions are involved) max_index is where max_value sits
+pub open spec fn tracked_min(view: Seq<R>, k: int, mi: int, mv: R) -> bool {
+	let w = view.len() as int;
+	let f = first_pos(k + 1, w);
+	mi >= f ==> {
+		&&& forall|p: int| f <= p < k ==> (#[trigger] at(view, k, p))@ >= mv@
+		&&& forall|p: int| mi < p < k ==> (#[trigger] at(view, k, p))@ > mv@
+		&&& (mi >= 1 || f >= 1 ==> mi < k && at(view, k, mi) == mv)
+	}
+}
+// what the update of one call leaves behind, as facts about the new window `vw` (next push k+1), whichever branch ran
+pub open spec fn updated_min(vw: Seq<R>, k: int, mi: int, mv: R) -> bool {
+	let w = vw.len() as int;
+	let f = first_pos(k + 1, w);
+	&&& f <= mi <= k
+	&&& forall|p: int| f <= p <= k ==> (#[trigger] at(vw, k + 1, p))@ >= mv@
+	&&& forall|p: int| mi < p <= k ==> (#[trigger] at(vw, k + 1, p))@ > mv@
+	&&& (mi >= 1 || f >= 1 ==> at(vw, k + 1, mi) == mv)
+}
+// branch: the tracked maximum is still inside and the new value does not reach it
+pub proof fn lemma_keep_min(ov: Seq<R>, x: R, k: int, mi: int, mv: R)
+	requires ov.len() >= 3, k >= 0, 0 <= mi <= k, tracked_min(ov, k, mi, mv), mi >= first_pos(k + 1, ov.len() as int), x@ > mv@
+	ensures updated_min(ov.drop_first().push(x), k, mi, mv)
+{
+	lemma_shift(ov, x, k);
+	let vw = ov.drop_first().push(x);
+	let w = ov.len() as int;
+	let f = first_pos(k + 1, w);
+	assert forall|p: int| f <= p <= k implies (#[trigger] at(vw, k + 1, p))@ >= mv@ by { if p < k { assert(at(vw, k + 1, p) == at(ov, k, p)); } }
+	assert forall|p: int| mi < p <= k implies (#[trigger] at(vw, k + 1, p))@ > mv@ by { if p < k { assert(at(vw, k + 1, p) == at(ov, k, p)); } }
+	if mi >= 1 || f >= 1 { assert(mi < k); assert(at(vw, k + 1, mi) == at(ov, k, mi)); }
+}
+// branch: the new value takes over
+pub proof fn lemma_take_min(ov: Seq<R>, x: R, k: int, mi: int, mv: R)
+	requires ov.len() >= 3, k >= 0, 0 <= mi <= k, tracked_min(ov, k, mi, mv), mi >= first_pos(k + 1, ov.len() as int), x@ <= mv@
+	ensures updated_min(ov.drop_first().push(x), k, k, x)
+{
+	lemma_shift(ov, x, k);
+	let vw = ov.drop_first().push(x);
+	let w = ov.len() as int;
+	let f = first_pos(k + 1, w);
+	assert forall|p: int| f <= p <= k implies (#[trigger] at(vw, k + 1, p))@ >= x@ by { if p < k { assert(at(vw, k + 1, p) == at(ov, k, p)); } }
+}
+// branch: rescan of the whole window (all positions real: f == k + 1 - w >= 1)
+pub proof fn lemma_rescan_min(vw: Seq<R>, k: int, mi: int, mv: R)
+	requires vw.len() >= 3, k + 1 - vw.len() >= 1, k + 1 - vw.len() <= mi <= k, vw[mi - (k + 1 - vw.len())] == mv,
+		forall|j: int| 0 <= j < vw.len() ==> (#[trigger] vw[j])@ >= mv@,
+		forall|j: int| mi - (k + 1 - vw.len()) < j < vw.len() ==> (#[trigger] vw[j])@ > mv@,
+	ensures updated_min(vw, k, mi, mv)
+{
+	let w = vw.len() as int;
+	let f = k + 1 - w;
+	assert(first_pos(k + 1, w) == f);
+	assert forall|p: int| f <= p <= k implies (#[trigger] at(vw, k + 1, p))@ >= mv@ by { assert(at(vw, k + 1, p) == vw[p - f]); }
+	assert forall|p: int| mi < p <= k implies (#[trigger] at(vw, k + 1, p))@ > mv@ by { assert(at(vw, k + 1, p) == vw[p - f]); }
+	assert(at(vw, k + 1, mi) == vw[mi - f]);
+}
+// after the update the bookkeeping is valid for the next call, and in the steady state the signal condition is the documented one
+pub proof fn lemma_updated_min(vw: Seq<R>, k: int, mi: int, mv: R, left: int, right: int)
+	requires vw.len() == left + right + 1, left >= 1, right >= 1, k >= 0, updated_min(vw, k, mi, mv)
+	ensures tracked_min(vw, k + 1, mi, mv),
+		k >= vw.len() ==> ((mi == k - right) <==> trough_at(vw, left)),
+{
+	let w = vw.len() as int;
+	let f = first_pos(k + 1, w);
+	let f2 = first_pos(k + 2, w);
+	assert(f2 >= f);
+	if k >= w {
+		assert(f == k + 1 - w && f >= 1);
+		assert forall|j: int| 0 <= j < w implies #[trigger] vw[j] == at(vw, k + 1, f + j) by {}
+		let c = left;
+		assert(f + c == k - right);
+		if mi == k - right {
+			assert(vw[c] == mv) by { assert(at(vw, k + 1, f + c) == vw[c]); }
+			assert forall|j: int| 0 <= j < c implies (#[trigger] vw[j])@ >= vw[c]@ by { assert(vw[j] == at(vw, k + 1, f + j)); }
+			assert forall|j: int| c < j < w implies (#[trigger] vw[j])@ > vw[c]@ by { assert(vw[j] == at(vw, k + 1, f + j)); }
+		} else if trough_at(vw, c) {
+			assert(vw[mi - f] == mv) by { assert(at(vw, k + 1, mi) == vw[mi - f]); }
+			assert(vw[c] == at(vw, k + 1, f + c));
+			if mi - f < c { assert(vw[c]@ > mv@); assert(vw[mi - f]@ >= vw[c]@); } else { assert(vw[mi - f]@ > vw[c]@); assert(vw[c]@ >= mv@); }
+		}
+	}
+}
+
 // ================================================================== UpperReversalSignal
 //@extract src/methods/reversal.rs struct:UpperReversalSignal
 //@end
@@ -134,7 +219,11 @@ impl Method for UpperReversalSignal {
 		s.index == 0 && s.left == parameters.0 && s.right == parameters.1 && s.window.view() =~= konst((parameters.0 + parameters.1 + 1) as nat, *initial_value)
 	}
 	// KNOWN FINDING guard (C07/C14): the position counter saturates at PeriodType::MAX; the contract covers the calls before that
+//@ifdef NO_GUARD
+	open spec fn input_ok(&self, x: &ValueType) -> bool { true }
+//@else
 	open spec fn input_ok(&self, x: &ValueType) -> bool { self.index < PeriodType::MAX }
+//@endif
 	open spec fn step(pre: &Self, x: &ValueType, post: &Self, out: &Action) -> bool {
 		&&& post.window.view() == pre.window.view().drop_first().push(*x)
 		&&& post.index == pre.index + 1 && post.left == pre.left && post.right == pre.right
@@ -193,6 +282,120 @@ impl Method for UpperReversalSignal {
 		assert(updated_max(vw, k, self.max_index as int, self.max_value));
 		lemma_updated(vw, k, self.max_index as int, self.max_value, self.left as int, self.right as int);
 	}
+//@end
+}
+// ================================================================== LowerReversalSignal
+//@extract src/methods/reversal.rs struct:LowerReversalSignal
+//@end
+impl Method for LowerReversalSignal {
+	type Params = (PeriodType, PeriodType);
+	type Input = ValueType;
+	type Output = Action;
+	open spec fn inv(&self) -> bool {
+		&&& self.window.wf() && self.left >= 1 && self.right >= 1
+		&&& self.window.cap() == self.left as int + self.right as int + 1
+		&&& self.min_index <= self.index
+		&&& tracked_min(self.window.view(), self.index as int, self.min_index as int, self.min_value)
+	}
+	open spec fn rejects(parameters: (PeriodType, PeriodType)) -> bool { parameters.0 == 0 || parameters.1 == 0 }
+	open spec fn new_req(parameters: (PeriodType, PeriodType), initial_value: &ValueType) -> bool { true }
+	open spec fn fresh(parameters: (PeriodType, PeriodType), initial_value: &ValueType, s: &Self) -> bool {
+		s.index == 0 && s.left == parameters.0 && s.right == parameters.1 && s.window.view() =~= konst((parameters.0 + parameters.1 + 1) as nat, *initial_value)
+	}
+	// KNOWN FINDING guard (C07/C14): the position counter saturates at PeriodType::MAX; the contract covers the calls before that
+//@ifdef NO_GUARD
+	open spec fn input_ok(&self, x: &ValueType) -> bool { true }
+//@else
+	open spec fn input_ok(&self, x: &ValueType) -> bool { self.index < PeriodType::MAX }
+//@endif
+	open spec fn step(pre: &Self, x: &ValueType, post: &Self, out: &Action) -> bool {
+		&&& post.window.view() == pre.window.view().drop_first().push(*x)
+		&&& post.index == pre.index + 1 && post.left == pre.left && post.right == pre.right
+		&&& (*out == Action::Buy(255) || *out is None)
+		// once the window holds real inputs only, the signal is definitional: it fires exactly `right` steps after a trough
+		&&& (pre.index as int >= pre.window.cap() ==> ((*out == Action::Buy(255)) <==> trough_at(post.window.view(), pre.left as int)))
+	}
+//@extract src/methods/reversal.rs impl[Method for LowerReversalSignal]::new
+//@hint result
+	proof {
+		if r is Ok { lemma_cloned_konst(r->Ok_0.window.view(), (left + right + 1) as nat, value); }
+	}
+//@end
+//@extract src/methods/reversal.rs impl[Method for LowerReversalSignal]::next
+//@src self.window.iter_rev() ==> self.window.iter_rev()
+//@src first_index.. ==> RangeFromIt::new(first_index)
+//@hint before let first_index
+	let ghost vw = self.window.view();
+	let ghost k = self.index as int;
+	let ghost w = self.window.cap();
+	let ghost ov = old(self).window.view();
+	let ghost mi0 = self.min_index as int;
+	let ghost mv0 = self.min_value;
+//@hint before if self.min_index < first_index
+	let ghost f = first_index as int;
+	proof { assert(f == first_pos(k + 1, w)); }
+//@hint before self.window .iter_rev()
+	proof {
+		assert(f >= 1 && f == k + 1 - w);
+		assert(min_value == vw[0]);
+	}
+//@hint chain 0
+		invariant_except_break
+			it0__.inv(), it0__.window == &self.window, vw == self.window.view(), w == vw.len(), w >= 3,
+			f >= 1, f == k + 1 - w, k < PeriodType::MAX as int,
+			it0__.remaining().len() <= w,
+			it0__.remaining() =~= vw.subrange(w - it0__.remaining().len(), w),
+			it0z1__.cur as int == f + (w - it0__.remaining().len()),
+			skipped0__ <= 1, (skipped0__ == 0) == (it0__.remaining().len() == w),
+			f <= min_index as int, (min_index as int) < f + (if w - it0__.remaining().len() > 1 { w - it0__.remaining().len() } else { 1 }),
+			vw[min_index as int - f] == min_value,
+			forall|j: int| 0 <= j < w - it0__.remaining().len() ==> (#[trigger] vw[j])@ >= min_value@,
+			forall|j: int| (min_index as int) - f < j < w - it0__.remaining().len() ==> (#[trigger] vw[j])@ > min_value@,
+		ensures
+			f <= min_index as int, (min_index as int) <= k, vw[min_index as int - f] == min_value,
+			forall|j: int| 0 <= j < w ==> (#[trigger] vw[j])@ >= min_value@,
+			forall|j: int| (min_index as int) - f < j < w ==> (#[trigger] vw[j])@ > min_value@,
+		decreases it0__.remaining().len()
+//@hint before self.min_value = min_value;
+	proof { lemma_rescan_min(vw, k, min_index as int, min_value); }
+//@hint before let s = if
+	proof {
+		if mi0 >= f {
+			if value@ <= mv0@ { lemma_take_min(ov, value, k, mi0, mv0); } else { lemma_keep_min(ov, value, k, mi0, mv0); }
+		}
+		assert(updated_min(vw, k, self.min_index as int, self.min_value));
+		lemma_updated_min(vw, k, self.min_index as int, self.min_value, self.left as int, self.right as int);
+	}
+//@end
+}
+
+// ================================================================== ReversalSignal = lower - upper
+//@extract src/methods/reversal.rs struct:ReversalSignal
+//@end
+pub open spec fn reversal_parts(pre: &ReversalSignal, x: &ValueType, post: &ReversalSignal, out: &Action, lo: Action, hi: Action) -> bool {
+	LowerReversalSignal::step(&pre.low, x, &post.low, &lo) && UpperReversalSignal::step(&pre.high, x, &post.high, &hi) && sv(*out) == clamp255(sv(lo) - sv(hi))
+}
+impl Method for ReversalSignal {
+	type Params = (PeriodType, PeriodType);
+	type Input = ValueType;
+	type Output = Action;
+	open spec fn inv(&self) -> bool { self.high.inv() && self.low.inv() }
+	open spec fn rejects(parameters: (PeriodType, PeriodType)) -> bool { parameters.0 == 0 || parameters.1 == 0 }
+	open spec fn new_req(parameters: (PeriodType, PeriodType), initial_value: &ValueType) -> bool { true }
+	open spec fn fresh(parameters: (PeriodType, PeriodType), initial_value: &ValueType, s: &Self) -> bool {
+		UpperReversalSignal::fresh(parameters, initial_value, &s.high) && LowerReversalSignal::fresh(parameters, initial_value, &s.low)
+	}
+	open spec fn input_ok(&self, x: &ValueType) -> bool { self.high.input_ok(x) && self.low.input_ok(x) }
+	// documented: lower reversal minus upper reversal
+	open spec fn step(pre: &Self, x: &ValueType, post: &Self, out: &Action) -> bool {
+		exists|lo: Action, hi: Action| #[trigger] reversal_parts(pre, x, post, out, lo, hi)
+	}
+//@extract src/methods/reversal.rs impl[Method for ReversalSignal]::new
+//@replace high: Method::new(params, value)?, ==> high: UpperReversalSignal::new(params, value)?,
+//@replace low: Method::new(params, value)?, ==> low: LowerReversalSignal::new(params, value)?,
+//@end
+//@extract src/methods/reversal.rs impl[Method for ReversalSignal]::next
+//@replace self.low.next(value) - self.high.next(value) ==> { let lo__ = self.low.next(value); let hi__ = self.high.next(value); let d__ = lo__ - hi__; proof { assert(reversal_parts(old(self), value, self, &d__, lo__, hi__)); } d__ }
 //@end
 }
 } // verus!
